@@ -117,6 +117,14 @@ def concrete(family, kind):
         gaps = offcycle
         negative = neg_month
     ok = [("ok", lambda: base(), True, std)]
+    if not H:
+        # well-formed baselines whose temperature column is not float64: whole degrees stored as integers, float32
+        def as_dtype(fr, dt):
+            fr = fr.copy()
+            fr["temperature"] = fr["temperature"].round().astype(dt)
+            return fr
+        ok += [("whole_degree_int64_temperature", lambda: as_dtype(base(), "int64"), True, std),
+               ("float32_temperature", lambda: as_dtype(base(), "float32"), True, std)]
     dq = [("too_short_300d", lambda: base(days=300), True, std),
           ("too_long_400d", lambda: base(days=400), True, std),
           ("offcycle_10d_read" if family == "billing" else "usage_gaps_50d", lambda: gaps(base()), True, std),
